@@ -131,7 +131,7 @@ SPECS = {
         ],
         "explanation": "theorems about Model/Packet.v (round trip incl. authenticated data for every keystream, layout, decode never panics, one lemma per rejection rule with the exact error, accepted => every rule passed, aad = received bytes, injectivity of datagram -> (aad, body), wrong id needs a keystream collision) + correspondence of Packet::encode / Packet::authenticated_data / Packet::decode with the model on generated packets and on datagrams malformed in the unmasked domain + direct monitor (round trip, layout, no panic, every strictness rule, other id rejected)",
     },
-    "C01": _hnd("c01", extra=HNDB_FILES + ["Proofs/HandlerB_Examples.v"]),
+    "C01": _hnd("c01", extra=HNDB_FILES + ["Proofs/HandlerB_Who.v", "Proofs/HandlerB_Examples.v"]),
     "C02": _hnd("c02", extra=HNDB_FILES + ["Proofs/HandlerB_Examples.v"]),
     "C03": _hnd("c03", extra=HNDB_FILES + ["Proofs/HandlerB_Examples.v"]),
     "C04": _hnd("c04", extra=["Proofs/HandlerInv.v", "Proofs/HandlerA_Ledger.v", "Proofs/HandlerA_Nonce.v", "Proofs/HandlerA_Progress.v"]),
